@@ -15,6 +15,7 @@ from vlib import fmt_list
 import tmplgen as g
 import c02
 import tparse
+import trender
 
 PROP = "C01"
 
@@ -43,6 +44,16 @@ def boundary_templates(rng):
             "{math:(}", "{math:)}", "{math:(1}", "{math:1|}", "{math:1&}", "{math:1=}", "{math:1!}", "{math:1<}", "{math:1>}", "{math:{var:}", "{math:{var:a}", "{var:a[}", "{var:a[]}",
             "{var:[0]}", "{var:a[0][}", "{var:a]}", "{var:]}", "{math:5 % 0}", "{math:5 / 0}", "{math:2 ^ 0.5}", "{math:0.5 / 100}", "{math:9223372036854775807 + 1}",
             "{math:-9223372036854775808 % -1}", "{math:1e400}", "{math:0x}", "{svar:a, }", "{svar:a,,}", "{svar:, {var:a}}"]
+    # every proper prefix of complete templates of each tag kind (truncation at every offset)
+    full = ['x{var:a[0][k]}y', '{raw:list[1]}', '{math:1 + {var:v} * (2 - 1) >= 3 && 1}', '{svar:a, {var:v}, {raw:a}, {math:1+1}}',
+            '{if case="{var:v} == 1" true="T{var:a}" false="F{raw:a}"}', "{if case='1' true='y'}",
+            '<if case="{var:v} > 0">A<else if case="1 != 2">B<elseif case="0" />C<else />D</if>',
+            '<if case="1">a<else if case="{var:a}">b<else>c</if>',
+            '<loop set="list" value="item" sort="descend">{var:item}<loop set="obj" value="o" group="k">{var:o}</loop></loop>',
+            '<loop value="v">{if case="{var:v}" true="{var:v}"}<if case="{var:v}">{math:{var:v}+1}</if></loop>']
+    for t in full:
+        for k in range(1, len(t)):
+            out.append(t[:k])
     return out
 
 
@@ -74,7 +85,7 @@ def lines_of(cases, mode=0):
 def check(tier):
     rep = vlib.Report(PROP, tier, "proof")
     rng = random.Random(rep.seed)
-    st = vlib.proof_stage(rep, "Properties_C01.v", ["finder", "tparse"], tables=tuple(tparse.TABLES))
+    st = vlib.proof_stage(rep, "Properties_C01.v", ["finder", "tparse", "trender"], tables=tuple(tparse.TABLES))
     exe, msg = c02.build("sse2")
     if exe is None:
         rep.violation({"broken": "cpp/drv_tmpl.cpp does not build against the current tree", "log": msg}, no_input=True)
@@ -125,6 +136,13 @@ def check(tier):
         rep.violation({"component": "Template.hpp::parse (model outcome Error)", "width": e.get("width"), "text": e.get("text"), "text_units": e.get("text_units"),
                        "model": e.get("model", "")[:500], "impl_tree": e.get("impl", "")[:500],
                        "oracle": "the parser model must not reach an Error outcome (c01_parse_safe no longer describes the code)"})
+
+    # ---- (a3) the renderer model: complete output of parse + render, model vs C++, on arbitrary texts
+    # (expression evaluation is replaced by the same constant on both sides; values: fixed tree + generated roots)
+    rr = trender.correspond(rng, tier, boost)
+    for e in rr["errors"][:2]:
+        rep.violation({"component": "Template.hpp render (model outcome RError)", "detail": json.dumps(e)[:1500],
+                       "oracle": "the renderer model must not reach an error outcome (c01_render_all_safe no longer describes the code)"})
 
     # ---- (b) safety search over the whole parser + renderer
     n = (6000 if tier == "quick" else 150000) * boost
@@ -181,8 +199,10 @@ def check(tier):
                 (w, t, v), r = bad[0]
                 rep.violation({"component": "Template::Render", "build": name, "width": w, "template": t[:2000], "template_units": fmt_list([ord(c) for c in t]),
                                "value_json": json.dumps(v), "sanitizer": r, "oracle": "rendering must return normally without a sanitizer report"})
-    if not rep.violations and (f_mis or not st["ok"] or pr["mismatches"]):
+    if not rep.violations and (f_mis or not st["ok"] or pr["mismatches"] or rr["mismatches"]):
         what = []
+        if rr["mismatches"]:
+            what.append("correspondence TrenderModel.render_model vs Template::Render differs (rendered output): " + json.dumps(rr["mismatches"][0])[:1200])
         if pr["mismatches"]:
             what.append("correspondence TparseModel.parse_model vs TemplateCore::Parse differs (tag trees): " + json.dumps(pr["mismatches"][0])[:1200])
         if not st["ok"]:
@@ -199,9 +219,10 @@ def check(tier):
         "checker_cmd": "cd coq && make Properties_C01.vo (coqc 8.16.1) ; coqc -Q . Qv Properties_C01.v for Print Assumptions",
         "trusted_base": vlib.TRUSTED_BASE_COMMON + [
             "modelled and proved: Finder::Next (FinderModel.v, %d texts compared) and the whole of Template.hpp::parse incl. the attribute scanners and the reads of the expression parser (TparseModel.v; tag trees compared field by field on %d texts)" % (len(ftexts), pr.get("n", 0)),
-            "NOT modelled: the renderer on the trees of malformed texts (only the tree invariant for texts without svar/inline-if tokens is proved) -- covered by the sanitizer search (a test, not a proof): g++ ASan+UBSan, exact-size input buffers, exact-fit growth hook QENTEM_VERIF; array capacity / reallocation"],
+            "renderer modelled (TrenderModel.v, every slice / index / start id checked; proved never to fail on parse's trees for an abstract value type); its complete output compared with the C++ on %d cases with expression evaluation replaced by a constant on both sides" % rr.get("n", 0),
+            "abstract in the renderer theorem (not covered by it): the value side (lookup, FastStringToNumber, GroupBy, Sort, CopyValueTo, number formatting) and expression evaluation incl. its own getValue calls -- these are C12/C13/C15/C18/C10/C04; array capacity / reallocation and everything the model cannot exhibit is covered by the sanitizer search (a test): g++ ASan+UBSan, exact-size input buffers, exact-fit growth hook QENTEM_VERIF"],
         "theorems": [{"name": a, "assumptions": b} for a, b in theorems],
-        "evaluations": len(allcases) + len(ftexts) + extra_runs + pr.get("n", 0),
+        "evaluations": len(allcases) + len(ftexts) + extra_runs + pr.get("n", 0) + rr.get("n", 0),
         "distinct_nontrivial": distinct,
         "rule": "templates from the documented grammar, 1-3 mutations of them (truncation, deletion, token insertion, slice move, duplication, unit replacement), token soup, boundary shapes (255/256-unit names, 65535-unit inline-if values, nesting 200-300, every prefix of every tag head), x generated value trees, 4 widths; non-trivial = contains a tag opener; distinct by (width, text)",
         "samples": [allcases[0][1][:120], cases[0][1][:300], cases[len(cases) // 2][1][:300]],
@@ -211,6 +232,8 @@ def check(tier):
         "parser_model_texts": pr.get("n", 0), "parser_model_nonempty_trees": pr.get("distinct_nonempty_trees", 0),
         "parser_model_mismatches": pr.get("n_mismatch", len(pr["mismatches"])), "parser_model_errors": pr.get("n_error", len(pr["errors"])),
         "parser_model_distribution": pr.get("distribution", {}),
+        "renderer_model_cases": rr.get("n", 0), "renderer_model_mismatches": rr.get("n_mismatch", len(rr["mismatches"])), "renderer_model_errors": rr.get("n_error", len(rr["errors"])),
+        "renderer_model_distribution": rr.get("distribution", {}),
         "finder_spec_failures": len(f_fail),
         "finder_model_mismatches": len(f_mis),
     }
